@@ -88,7 +88,8 @@ func (p *roundRobinQueryPlan) Next() *Host {
 	if p.index >= l {
 		return nil
 	}
-	host := p.hosts[(p.offset+p.index)%l]
+	// Sum in 64 bits: offset is a free-running 32-bit counter and offset+index must not wrap within a traversal
+	host := p.hosts[(uint64(p.offset)+uint64(p.index))%uint64(l)]
 	p.index++
 	return host
 }
